@@ -198,6 +198,21 @@ def evaluate(child):
                 child.fail('C07', 'gate-not-finalised', expected='finalisation when no warnings are left',
                            actual={'outcome': child.outcome, 'R': R})
             stats.probes['gate_open'] += 1
+    if child.finalise_called and child.records_at_finalise is not None:
+        # "finalises only when the warnings left after -maxwarn number zero": evaluated on everything that was
+        # logged before finalisation started, whenever the program took its count
+        recs_f = [(lvl, t) for lvl, t, _m in child.recorder.records[:child.records_at_finalise] if lvl >= logging.WARNING]
+        recs_f = [r for r in recs_f]
+        gate_msgs = sum(1 for lvl, t, m in child.recorder.records[:child.records_at_finalise]
+                        if lvl >= logging.ERROR and m and 'warnings were encountered' in m)
+        r_fin, comp_f = reference_R(recs_f, specs)
+        if comp_f and r_fin - gate_msgs > 0:
+            child.fail('C07', 'finalised-with-warnings-pending', expected='no finalisation: %d warning(s)/error(s) not waived' % r_fin,
+                       actual={'outcome': child.outcome, 'records': sorted(collections.Counter(recs_f).items())[:6]},
+                       signature='finalised-with-warnings-pending')
+            child.fail('C08', 'uncounted-records', expected='every record logged before finalisation is accounted',
+                       actual={'counted_by_program': child.leftover, 'reference_at_finalisation': r_fin},
+                       signature='uncounted-records')
     if not child.finalise_called:
         if changed:
             child.fail('C07', 'output-without-finalisation', expected='working directory unchanged',
